@@ -556,7 +556,7 @@ impl Prop for C13 {
     }
     fn runs(&self, tier: Tier) -> u64 {
         match tier {
-            Tier::Quick => 3000,
+            Tier::Quick => 8000,
             Tier::Thorough => 60000,
         }
     }
